@@ -251,6 +251,9 @@ func checkContinue(r *ev.Run, w *sworld, wid string, c *search.Constraint, cj []
 	}
 	feature := timeFeature(w, full, st)
 	rec.Times = w.timesOf(full, st)
+	if n > lim && lim > 1 && pages > 2 {
+		r.Sample(map[string]any{"world": wid, "constraint": json.RawMessage(cj), "sort": sortNames[st], "limit": lim, "mode": m.name, "pages": rec.Pages, "continue_tokens": rec.Tokens, "time_feature": feature})
+	}
 	if !terminated {
 		r.Violation("no-termination/"+sortNames[st]+"/"+feature, fmt.Sprintf("%s [%s]: after %d pages (bound for %d results at limit %d) the server still returns a continue token; %d results collected (constraint %s)", wid, m.name, pages, n, lim, len(got), cj), rec)
 		return
